@@ -1,7 +1,23 @@
 ------------------------------ MODULE MC_Krill ------------------------------
+(* Model-checking wrapper for Krill.tla: constants that need operators, and *)
+(* a counter of API operations so that configurations can bound the number  *)
+(* of operations per behaviour (background tasks are never bounded).        *)
 EXTENDS Krill
+
+CONSTANT MaxApi
+
+VARIABLE napi
+
 MCRoa1 == {<<"p1", "a1">>}
 MCRoa2 == {<<"p1", "a1">>, <<"p2", "a1">>}
-Chain == [c \in {"B", "C"} |-> IF c = "B" THEN "A" ELSE "B"]
-Flat == [c \in {"B", "C"} |-> "A"]
+Chain == [c \in Sub |-> IF c = "B" THEN "A" ELSE "B"]
+Flat == [c \in Sub |-> "A"]
+
+MCInit == Init /\ napi = 0
+MCNext == \/ napi < MaxApi /\ ApiNext /\ napi' = napi + 1
+          \/ TaskNext /\ napi' = napi
+MCSpec == MCInit /\ [][MCNext]_<<vars, napi>>
+
+\* the step property again, for the wrapped specification
+MC_IssuedWithinEntitlement == [][C02_IssuedWithinEntitlementStep]_<<vars, napi>>
 =============================================================================
